@@ -88,12 +88,33 @@ func corpus() []scen.Scenario {
 	hammer = append(hammer, ops("wstop", "lengths", 1, "wait", 1)...)
 	out = append(out, scen.Scenario{Kind: "race", Source: "triangle", Nchan: 3, Seed: 7, Ops: hammer},
 		scen.Scenario{Kind: "race", Source: "simpulse", Nchan: 2, Seed: 8, Ops: hammer})
+	for _, kind := range []string{"race", "conf"} {
+		out = append(out, special(kind, 0)...)
+	}
 	return out
+}
+
+// special: workloads for hand-overs that only show under particular timing.
+//   - archive requests back to back, each issued as soon as the previous one is filled, of equal and then
+//     shrinking sizes: the writer goroutine of one request overlaps the filling of the next
+//   - one slow request on the scripted Abaco source: the core loop falls behind the reader by more than
+//     100 ms, so the slow path of block assembly runs
+//   - ConfigureTriggers with edge-multi triggering on, repeated while blocks flow: the per-channel workers
+//     then WRITE the trigger state on every block
+func special(kind string, variant int) []scen.Scenario {
+	v := variant
+	return []scen.Scenario{
+		{Kind: kind, Source: "triangle", Nchan: 8 + 4*(v%3), Seed: uint64(11 + v), Ops: ops("trig", 1, "wait", 1, "storeseq", 3+v%2, "wait", 2)},
+		{Kind: kind, Source: "abaco", Nchan: 2 + v%3, Groups: 1 + v%2, ExtTrig: v%2 == 1, Seed: uint64(21 + v),
+			Ops: ops("trig", v%3, "wait", 2, "stall", 400+50*(v%3), "wait", 6)},
+		{Kind: kind, Source: "simpulse", Nchan: 4, Pulse: 2000, Seed: uint64(31 + v),
+			Ops: ops("wait", 2, "emt", 300, "wait", 6, "emt", 200, "wait", 6, "sendall", "emt", 300-10*v, "wait", 4)},
+	}
 }
 
 func genOps(r *lib.Rng, nops int) []scen.Op {
 	kinds := []string{"trig", "trig", "couple", "uncouple", "wstart", "wpause", "wunpause", "wstop", "rcomment", "rcomment",
-		"wcomment", "label", "store", "store", "lengths", "sendall", "wait", "wait", "wait"}
+		"wcomment", "label", "store", "store", "lengths", "sendall", "wait", "wait", "wait", "storeseq", "stall"}
 	out := []scen.Op{{Op: "trig", N: r.Intn(3)}}
 	for i := 0; i < nops; i++ {
 		o := scen.Op{Op: kinds[r.Intn(len(kinds))]}
@@ -108,6 +129,10 @@ func genOps(r *lib.Rng, nops int) []scen.Op {
 			o.N = r.Pick([]int{1, 10, 30, 600, 2000})
 		case "wait":
 			o.N = r.Range(1, 3)
+		case "storeseq":
+			o.N = r.Range(2, 3)
+		case "stall":
+			o.N = r.Pick([]int{120, 250, 400})
 		}
 		out = append(out, o)
 	}
@@ -147,6 +172,13 @@ func gen(seed uint64, tier string) []interface{} {
 		}
 		s.Ops = genOps(q, n)
 		return s
+	}
+	if tier == "thorough" {
+		for v := 1; v <= 3; v++ {
+			for _, s := range special("race", v) {
+				add(s)
+			}
+		}
 	}
 	for i := 0; i < nconf; i++ {
 		add(mk("conf"))
@@ -199,7 +231,7 @@ func runConf(s scen.Scenario) (lib.Result, error) {
 	dir, clean := scratch("conf")
 	defer clean()
 	lg := &scen.Logger{}
-	h := scen.Hooks{Point: lg.Point, Access: lg.Access, Return: lg.ClientReturn, Blocks: lg.Blocks}
+	h := scen.Hooks{Point: lg.Point, Access: lg.Access, Started: lg.Started, Return: lg.ClientReturn, Blocks: lg.Blocks}
 	out := scen.Run(s, h, dir, repoDir())
 	if len(out.Errs) > 0 || out.Stuck != "" {
 		return res, fmt.Errorf("case %d: scenario did not run: %v stuck=%q", s.ID, out.Errs, out.Stuck)
@@ -209,9 +241,14 @@ func runConf(s scen.Scenario) (lib.Result, error) {
 	if len(unknown) > 0 {
 		return res, fmt.Errorf("case %d: hook sites the translation does not know: %v", s.ID, unknown[:1])
 	}
+	res.Tags = tagsOf(s, out)
+	const maxEvents = 4000 // happens-before is evaluated pairwise in Coq; a prefix of a log is a log
+	if len(terms) > maxEvents {
+		terms = terms[:maxEvents]
+		res.Tags = append(res.Tags, "log-truncated")
+	}
 	res.Term = fmt.Sprintf("conf %d [\n  %s]", len(out.Names), strings.Join(terms, ";\n  "))
 	res.Impl = map[string]interface{}{"blocks": out.Blocks, "events": len(terms), "op_errs": out.OpErrs}
-	res.Tags = tagsOf(s, out)
 	res.NonTrivial = nonTrivial(s, out)
 	return res, nil
 }
